@@ -144,6 +144,12 @@ pub fn build_case(t: &mut Tape) -> Case {
             }
         }
     }
+    // v4: the input file may be named in the LAST output group instead of the first
+    if crate::engine::gen_version() >= 4 && !use_cmd && t.chance(1, 4) {
+        let root = args.remove(1);
+        args.push(root);
+        kinds.push("input-file-named-last");
+    }
     Case { seed_name: e.name.clone(), files, args, edits, kinds, n_groups, from_corpus_command: use_cmd }
 }
 
@@ -810,6 +816,22 @@ impl Property for C03 {
             return Verdict::fail(clause, detail);
         }
         let o = r.unwrap();
+        // v4: "every requested output produced": on the command lines built here every `--`-separated group asks for one
+        // output, written to a file unless the group says -p
+        if crate::engine::gen_version() >= 4 && o.ok && !case.from_corpus_command {
+            let want = case.args.split(|a| a == "--").filter(|g| !g.iter().any(|a| a == "-p")).count();
+            if o.writes.len() != want {
+                ctx.want_render = true;
+                ctx.render(|| render(&case, json!(null)));
+                return Verdict::fail(
+                    format!("{}|success-but-requested-output-missing", pred),
+                    format!("{} output group(s) ask for a file, the successful run wrote {:?}", want, o.writes.iter().map(|w| &w.0).collect::<Vec<_>>()),
+                );
+            }
+            if case.args.last().map(|a| a.ends_with(".asm")).unwrap_or(false) && case.n_groups > 1 {
+                ctx.label("success:input-file-named-last:several-groups");
+            }
+        }
         let phase = if o.ok { "ok" } else { phase_of(&o.msgs) };
         ctx.label(format!("phase:{}", phase));
         ctx.label(format!("edits:{}", case.edits.min(8)));
